@@ -22,6 +22,22 @@ CHECKS = {
             "inventory of exec/eval/compile/import sites",
             "CPython re / str.format semantics as modelled (automaton model cross-checked against re at start-up); "
             "validated names are str", "DESIGN.md 3/C06"),
+    "C07": ("AST-field coverage matrix of the interpreter against ast.<K>._fields; operator-table comparison; delegation shape of special methods",
+            "every semantically relevant field of every handled AST node kind is read and list fields are consumed entirely; "
+            "operator/comparator tables map each ast class to Python's operator; membership lambdas pass the container first; "
+            "List/Tuple build the same container type; Type-matcher special methods exist and delegate to the matching operator; "
+            "compiled engine evaluates the unchanged text in eval mode with the shared namespace",
+            "ast._fields of the running interpreter; the reference operator map", "DESIGN.md 3/C07"),
+    "C08": ("exhaustive static dispatch table: abstract evaluation of comparison methods on a foreign operand + Python data-model dispatch rules",
+            "outcome of every cell operator x position x operand kind x engine computed from source (1024+ cells), sentinel "
+            "provenance (3-arg getattr on all paths), sentinel special methods, BinOp guard, helpers skip missing fields",
+            "the data-model table for builtins (printed in evidence); the table was validated cell-by-cell against a dynamic "
+            "sweep at development time (tools/c08_dynamic.py, 0 disagreements on the pinned and the repaired tree)", "DESIGN.md 3/C08"),
+    "C09": ("invocation-site inventory; dominator/branch-fact queries on the interpreter; namespace (bind vs vet) set comparison; effect scan",
+            "single arbitrary-call site; predicate-or-raise dominates it; resolve_attr_path total and exact; predicate reads no "
+            "bindable container; generator-variable guard covers every vetted root; every expression-named getattr dominated by a "
+            "dunder refusal; no stores outside matcher state; no callable-creating syntax handled",
+            "helpers and field-type constructors are trusted with hostile arguments", "DESIGN.md 3/C09"),
 }
 
 NOT_YET = {}
